@@ -447,9 +447,11 @@ def _sig(q, params, **defaults):
 for _q in ("exp", "tanh", "log", "sqrt"):
     SIGS[f"math.{_q}"] = (("a",), {})
 for _q in ("exp log log1p expm1 abs sign tanh arctanh sqrt isnan isfinite negative square "
-           "reciprocal logical_not sort ravel asarray array argmin argmax shape size ndim "
+           "reciprocal logical_not sort ravel argmin argmax shape size ndim "
            "transpose diag_indices").split():
     _sig(f"jax.numpy.{_q}", "a")
+_sig("jax.numpy.asarray", "a dtype", dtype=None)
+_sig("jax.numpy.array", "a dtype", dtype=None)
 _sig("jax.numpy.where", "condition x y")
 _sig("jax.numpy.sum", "a axis", axis=None)
 _sig("jax.numpy.mean", "a axis", axis=None)
@@ -1059,7 +1061,7 @@ class Interp:
     def exec_for(self, st: ast.For, env: Env, ctx):
         it = self.ev(st.iter, env, ctx)
         # static unrolling over a literal tuple/list
-        if it[0] in ("tuple", "list") and not any(x[0] == "star" for x in it[1]) and len(it[1]) <= 8:
+        if it[0] in ("tuple", "list") and not any(x[0] == "star" for x in it[1]) and len(it[1]) <= 24:
             for item in it[1]:
                 self.assign(st.target, item, env, ctx)
                 out = self.exec_block(st.body, env, ctx)
@@ -1321,6 +1323,14 @@ class Interp:
             r = self.prog.find_method(ctx[1], name)
             if r and name not in r[0].properties:
                 return BoundMethod(r[0], r[1], ctx[1], ctx[2], name)
+        if obj[0] == "call" and obj[1] == ("ext", "equinox.nn.MLP"):
+            kw = dict(obj[3])
+            d = kw.get("depth")
+            if name == "depth" and d is not None:
+                return d
+            if name == "layers" and d is not None and is_const(d) and isinstance(d[1], int):
+                # documented: an MLP has depth + 1 linear layers
+                return ("tuple", tuple(("mlp_layer", obj, C(i)) for i in range(d[1] + 1)))
         if name == "__name__" and obj[0] == "attr":
             return C(obj[2])
         if name == "T" and obj[0] != "sym":
@@ -1340,6 +1350,9 @@ class Interp:
             return mk_add((a, mk_neg(b)))
         if isinstance(op, ast.Mult):
             if a[0] in ("tuple", "list") or b[0] in ("tuple", "list"):
+                seq, k = (a, b) if a[0] in ("tuple", "list") else (b, a)
+                if is_const(k) and isinstance(k[1], int) and not any(x[0] == "star" for x in seq[1]):
+                    return (seq[0], seq[1] * max(k[1], 0))
                 return ("repeat", a, b)
             return mk_mul((a, b))
         if isinstance(op, ast.Div):
@@ -1429,6 +1442,9 @@ class Interp:
                     return self.apply_def(r[2], Env(), (r[1], None, None), args, kwargs)
                 finally:
                     self.stack.pop()
+            lit = self._literal_builtin(q, args, kwargs)
+            if lit is not None:
+                return lit
             if q in ("builtins.tuple", "builtins.list") and len(args) == 1 and not kwargs:
                 a0 = self.as_term(args[0])
                 if a0[0] in ("tuple", "list"):
@@ -1469,6 +1485,35 @@ class Interp:
         targs = [self.as_term(a) for a in args]
         tkw = {k: self.as_term(v) for k, v in kwargs.items()}
         return norm_call(f, targs, tkw, self.prog)
+
+    @staticmethod
+    def _is_lit(t):
+        return isinstance(t, tuple) and t and t[0] in ("tuple", "list") and not any(x[0] == "star" for x in t[1])
+
+    def _literal_builtin(self, q, args, kwargs):
+        """enumerate / zip / range / reversed / len on literal sequences (constant propagation)."""
+        a = [self.as_term(x) for x in args]
+        if q == "builtins.enumerate" and len(a) == 1 and self._is_lit(a[0]):
+            return ("tuple", tuple(("tuple", (C(i), x)) for i, x in enumerate(a[0][1])))
+        if q == "builtins.range" and a and all(is_const(x) and isinstance(x[1], int) for x in a) and not kwargs:
+            r = range(*[x[1] for x in a])
+            if len(r) <= 64:
+                return ("tuple", tuple(C(i) for i in r))
+        if q == "builtins.reversed" and len(a) == 1 and self._is_lit(a[0]):
+            return ("tuple", tuple(reversed(a[0][1])))
+        if q == "builtins.zip" and a and any(self._is_lit(x) for x in a):
+            lits = [len(x[1]) for x in a if self._is_lit(x)]
+            strict = self.as_term(kwargs.get("strict", FALSE))
+            if strict == TRUE and len(set(lits)) > 1:
+                return ("raises", ("call", ("ext", "builtins.ValueError"), (C("zip() arguments have different lengths"),), ()))
+            n = min(lits)
+            rows = []
+            for i in range(n):
+                rows.append(("tuple", tuple(x[1][i] if self._is_lit(x) else proj(x, i) for x in a)))
+            return ("tuple", tuple(rows))
+        if q == "builtins.len" and len(a) == 1 and self._is_lit(a[0]):
+            return C(len(a[0][1]))
+        return None
 
     def model_scan(self, args, kwargs):
         """jax.lax.scan(f, init, xs, length=None, reverse=False) -> (carry_fold, ys)."""
